@@ -5,6 +5,7 @@ import (
 	"go/constant"
 	"go/token"
 	"go/types"
+	"os"
 	"sort"
 	"strings"
 
@@ -113,57 +114,7 @@ func collectSinks(lf *lexFacts, cx *lexCtx) []sinkInfo {
 			if st == nil || !st.live {
 				continue
 			}
-			arg := call.Call.Args[1]
-			si := sinkInfo{call: call}
-			switch {
-			case isConstByteLike(arg) && constTextLen(arg) > 1:
-				// constant text: walk it as the consumer of the literal will, pairing each backslash with its successor
-				si.class, si.multi = "const", true
-				str := constant.StringVal(unwrap(arg).(*ssa.Const).Value)
-				i := 0
-				if prev != nil && prev.isBsl && !prev.paired {
-					i = 1 // first byte completes the pair opened by the previous sink
-				}
-				for i < len(str) {
-					if str[i] == '\\' {
-						if i+1 < len(str) {
-							i += 2
-							continue
-						}
-						si.isBsl = true
-						break
-					}
-					si.set.add(str[i])
-					i++
-				}
-			case isConstByteLike(arg):
-				si.class = "const"
-				si.set = constBytes(arg)
-				si.isBsl = endsInLoneBackslash(arg)
-			case isByteSlice(arg.Type()):
-				// Write(p): every byte of p
-				si.set = lf.contentSet(st, arg)
-				switch arg.(type) {
-				case *ssa.Phi:
-					si.class = "verbatim"
-				case *ssa.Call:
-					if _, isAppend := isBuiltinCall(arg, "append"); isAppend {
-						si.class = "verbatim"
-					} else {
-						si.class = "computed"
-					}
-				default:
-					si.class = "computed"
-				}
-			default:
-				si.set = lf.valSet(st, cx, arg)
-				if st.alias[unwrap(arg)] == 1 || fromByteSlice(arg) {
-					si.class = "verbatim"
-					si.direct = st.alias[unwrap(arg)] == 1
-				} else {
-					si.class = "computed"
-				}
-			}
+			si := classifySink(lf, cx, st, call, prev != nil && prev.isBsl && !prev.paired)
 			if prev != nil && prev.isBsl && !prev.paired && !si.multi {
 				si.paired = true
 			}
@@ -403,7 +354,40 @@ func runC07(c *Ctx) {
 					}
 				}
 			}
+			// pairing of sinks within one round of the scanner's loop, path by path (scanpaths.go); the block-local
+			// reading of collectSinks is kept when the walk is cut short
+			var pathFacts map[*ssa.Call]*sinkPathFacts
+			if paths, ok := scannerIterPaths(lf, cx); ok && len(paths) > 0 {
+				pathFacts = sinkFactsFromPaths(paths)
+			}
+			if os.Getenv("XJSCHECK_ROUNDS") != "" {
+				paths, ok := scannerIterPaths(lf, cx)
+				fmt.Fprintf(os.Stderr, "== %s entry %s complete=%v paths=%d\n", cx.fn.Name(), cx.entry.cur, ok, len(paths))
+				for _, p := range paths {
+					line := ""
+					for _, e := range p.events {
+						switch {
+						case e.adv && e.start:
+							line += " start=" + e.after.String()
+						case e.adv && e.unknown:
+							line += " ADV?"
+						case e.adv:
+							line += " adv->" + e.after.String()
+						default:
+							line += fmt.Sprintf(" W[%s %s bsl=%v paired=%v]", e.sink.class, e.sink.set, e.sink.isBsl, e.sink.paired)
+						}
+					}
+					fmt.Fprintf(os.Stderr, "   exit=%v:%s\n", p.exits, line)
+				}
+			}
 			for _, si := range collectSinks(lf, cx) {
+				if sf := pathFacts[si.call]; sf != nil && sf.paths > 0 {
+					si.paired = sf.pairedAll
+					si.hasNext = sf.hasNextAll
+					if sf.anyUnpaired {
+						si.set = sf.setUnpaired
+					}
+				}
 				esc := si.escape
 				if esc == "" {
 					esc = "raw"
@@ -437,7 +421,7 @@ func runC07(c *Ctx) {
 				case si.class == "const":
 					bad := si.set.inter(danger.union(setOf('\n', '\r')))
 					c.check(bad.empty(), key, si.call.Pos(), fmt.Sprintf("constant %s", si.set), fmt.Sprintf("writes %s unescaped into a literal that is printed between %q: the emitted literal ends early or is invalid", bad, string(rune(D))))
-				case si.class == "verbatim" && si.direct && si.first && strings.HasPrefix(esc, "\\"):
+				case si.class == "verbatim" && si.direct && si.first && strings.HasPrefix(esc, "\\") && si.set != setOf('\\') && !si.set.sub(cl.printer.neutral):
 					c.bad(key, si.call.Pos(), "the byte after a backslash (%s) is written WITHOUT the backslash: the escape sequence loses its meaning (\\n becomes n, a line continuation becomes a raw line break)", si.set)
 				case si.class == "verbatim":
 					bad := si.set.inter(danger)
@@ -537,6 +521,88 @@ func runC07(c *Ctx) {
 	c.rule("R7.7", "escape decoding keeps no state between characters: the scanners' main loops have no loop-carried values (only the cursor fields and the result buffer persist)")
 	c.floor(2)
 	ruleScannerMemoryless(c, lf)
+
+	c.rule("R7.8", "byte conservation per round of a delimited scanner whose rounds could all be walked: what a round consumes it writes — except a backslash dropped in front of a byte the printer escapes again, or a backslash added in front of a copied byte")
+	c.floor(1)
+	nwalked := 0
+	for _, cl := range classes {
+		for _, key := range lf.order {
+			cx := lf.ctxs[key]
+			if cx.fn == lf.base || cx.fn == lf.skipper || !cx.entry.live || resultBuilder(cx.fn) == nil {
+				continue
+			}
+			if !cx.entry.cur.has(cl.srcDelim) || cx.entry.cur.count() != 1 {
+				continue
+			}
+			paths, complete := scannerIterPaths(lf, cx)
+			k := fmt.Sprintf("%s [%s…%s]: rounds", cx.fn.Name(), string(rune(cl.srcDelim)), string(rune(cl.srcDelim)))
+			if !complete || len(paths) == 0 {
+				c.info(k+" not walked", cx.fn.Pos(), "the rounds of this scanner contain inner loops or too many paths: conservation is not decided for it (its sinks are judged one by one by R7.1)")
+				continue
+			}
+			nwalked++
+			nbad := 0
+			nrounds := 0
+			for _, p := range paths {
+				if p.exits {
+					continue
+				}
+				consumed, written, added, dropped := 0, 0, 0, 0
+				skip := false
+				var sinks []*sinkInfo
+				var advs []bset
+				for _, e := range p.events {
+					switch {
+					case e.adv && e.unknown:
+						skip = true
+					case e.adv && e.start:
+						advs = append(advs, e.after)
+					case e.adv:
+						consumed++
+						advs = append(advs, e.after)
+					default:
+						sinks = append(sinks, e.sink)
+					}
+				}
+				for i, si := range sinks {
+					switch {
+					case si.class == "computed" || isByteSlice(si.call.Call.Args[1].Type()):
+						skip = true
+					case si.multi:
+						written += constTextLen(si.call.Call.Args[1])
+					default:
+						written++
+					}
+					if si.class == "const" && si.isBsl && !si.multi && i+1 < len(sinks) {
+						added++ // an escaping backslash put in front of the next byte
+					}
+				}
+				if skip {
+					continue
+				}
+				for i := 0; i+1 < len(advs); i++ {
+					if advs[i] == setOf('\\') && !advs[i+1].empty() && advs[i+1].sub(cl.printer.neutral) {
+						dropped++ // the printer writes this backslash again in front of the byte it escapes
+					}
+				}
+				nrounds++
+				if written-added != consumed-dropped {
+					nbad++
+					var seq []string
+					for _, a := range advs {
+						seq = append(seq, a.String())
+					}
+					c.bad(fmt.Sprintf("%s: round #%d", k, nbad), cx.fn.Pos(), "a round that consumes %d byte(s) (%s) writes %d (added escapes: %d, backslashes the printer restores: %d): a byte of the literal is lost or invented, so the emitted literal denotes another string", consumed, strings.Join(seq, " "), written, added, dropped)
+				}
+			}
+			if nbad == 0 {
+				c.ok(k, cx.fn.Pos(), "%d rounds walked: each writes what it consumes (modulo a backslash the printer restores / an added escape)", nrounds)
+			}
+		}
+	}
+	if nwalked == 0 {
+		c.unres("rounds", token.NoPos, "no delimited scanner could be walked round by round")
+	}
 }
 
 func describeDanger(bad bset, D byte) string {
@@ -985,4 +1051,65 @@ func constTextLen(v ssa.Value) int {
 		return 0
 	}
 	return len(constant.StringVal(k.Value))
+}
+
+// classifySink: what one write into the scanner's result buffer can put there, in lexer state st.
+func classifySink(lf *lexFacts, cx *lexCtx, st *lexState, call *ssa.Call, prevLoneBsl bool) sinkInfo {
+	arg := call.Call.Args[1]
+	si := sinkInfo{call: call}
+	switch {
+	case isConstByteLike(arg) && constTextLen(arg) > 1:
+		// constant text: walk it as the consumer of the literal will, pairing each backslash with its successor
+		si.class, si.multi = "const", true
+		str := constant.StringVal(unwrap(arg).(*ssa.Const).Value)
+		i := 0
+		if prevLoneBsl {
+			i = 1 // first byte completes the pair opened by the previous sink
+		}
+		for i < len(str) {
+			if str[i] == '\\' {
+				if i+1 < len(str) {
+					i += 2
+					continue
+				}
+				si.isBsl = true
+				break
+			}
+			si.set.add(str[i])
+			i++
+		}
+	case isConstByteLike(arg):
+		si.class = "const"
+		si.set = constBytes(arg)
+		si.isBsl = endsInLoneBackslash(arg)
+		// a constant that is exactly the byte under the cursor (written in a branch that tested for it) is a copy of
+		// the source byte, spelled as a constant
+		if cb, single := st.cur.single(); single && si.set == setOf(cb) {
+			si.class, si.direct, si.isBsl = "verbatim", true, false
+		}
+	case isByteSlice(arg.Type()):
+		// Write(p): every byte of p
+		si.set = lf.contentSet(st, arg)
+		switch arg.(type) {
+		case *ssa.Phi:
+			si.class = "verbatim"
+		case *ssa.Call:
+			if _, isAppend := isBuiltinCall(arg, "append"); isAppend {
+				si.class = "verbatim"
+			} else {
+				si.class = "computed"
+			}
+		default:
+			si.class = "computed"
+		}
+	default:
+		si.set = lf.valSet(st, cx, arg)
+		if st.alias[unwrap(arg)] == 1 || fromByteSlice(arg) {
+			si.class = "verbatim"
+			si.direct = st.alias[unwrap(arg)] == 1
+		} else {
+			si.class = "computed"
+		}
+	}
+	return si
 }
